@@ -203,8 +203,13 @@ def _check_diagrams_once(case, ctx, user_arrays, pristine, pass_no):
 @st.composite
 def s_matching(draw):
     fam = draw(diagram_family(count=2, min_size=0, max_size=6, allow_diag=True, scales=False, modes=("lattice", "float"), allow_neg=False))
-    return {"fam": fam, "kind": draw(st.sampled_from(["b", "w"])), "axes": draw(st.sampled_from(["current", "given_current", "given_not_current", "given_not_current"])),
+    case = {"fam": fam, "kind": draw(st.sampled_from(["b", "w"])), "axes": draw(st.sampled_from(["current", "given_current", "given_not_current", "given_not_current"])),
             "dtype": draw(st.sampled_from(["float64", "float64", "uint8", "int16"])), "mult": draw(st.sampled_from([1, 15]))}
+    if draw(st.integers(0, 3)) == 0:
+        # "with or without infinite points": rows (birth, inf) inserted at generated positions of either diagram; the distance functions drop
+        # them (with a warning), so the rows of the returned matching refer to the remaining finite points
+        case["inf"] = draw(st.lists(st.tuples(st.integers(0, 1), st.integers(0, 6), st.sampled_from([0.0, 0.0, 1.0, 2.5])).map(list), min_size=1, max_size=3))
+    return case
 
 
 def seg_key(p, q):
@@ -226,8 +231,17 @@ def check_matching(case, ctx):
         A = [[p[0] * mult, p[1] * mult] for p in A]
         B = [[p[0] * mult, p[1] * mult] for p in B]
         ctx.label("dtype:" + case["dtype"])
-    a = np.array(A, dtype=dt).reshape(-1, 2)
-    b = np.array(B, dtype=dt).reshape(-1, 2)
+    Ain, Bin = [list(p) for p in A], [list(p) for p in B]
+    if case.get("inf"):
+        if dt is not np.float64:
+            ctx.skip("infinite deaths cannot be stored in an integer array")
+        for which, pos, birth in case["inf"]:
+            tgt = Ain if which == 0 else Bin
+            tgt.insert(min(int(pos), len(tgt)), [float(birth), float("inf")])
+        ctx.label("with_infinite_points", "infinite_point_before_a_finite_one" if any(
+            np.isinf(d[k][1]) and any(np.isfinite(q[1]) for q in d[k + 1:]) for d in (Ain, Bin) for k in range(len(d))) else None)
+    a = np.array(Ain, dtype=dt).reshape(-1, 2)
+    b = np.array(Bin, dtype=dt).reshape(-1, 2)
     dist_fn = bottleneck if case["kind"] == "b" else wasserstein
     plot_fn = bottleneck_matching if case["kind"] == "b" else wasserstein_matching
     _, match = ctx.call(dist_fn, a, b, matching=True)
@@ -353,6 +367,8 @@ def VALID_DEFAULT(case):
             if po is not None and (not po or any(i >= len(case["fam"]["dgms"]) for i in po) or len(set(po)) != len(po)):
                 return False
         if "cls" in case and any(not b[1] > b[0] for b in case["fam"]["dgms"][0]):
+            return False
+        if "inf" in case and (not case["inf"] or any(len(e) != 3 or e[0] not in (0, 1) or not 0 <= e[1] <= 6 or not 0 <= e[2] <= 10 for e in case["inf"])):
             return False
     except Exception:
         return False
